@@ -1,5 +1,5 @@
 # replay of a bounded stand-in violation (C19)
 import sys
-print('clique.search([], edges=[], iterations=1, node_select=[np.float64(0.5), np.float64(2.5), np.float64(1.5)]) can return [(0,), (2,)], the documented phases allow [(2,)]')
+print('clique.shrink([0, 1, 2], edges=[(0, 1)], node_select=[np.float64(2.5), np.float64(1.5), np.float64(0.5)]) can return [(1,)], documented rule allows [(0, 1)]')
 print('REPLAY-VIOLATION (re-run native/c19_apps.py to reproduce)')
 sys.exit(1)
